@@ -84,6 +84,10 @@ enum DirTamper {
     Truncate { file: u16, newlen: u16 },
     Append { file: u16, extra: Vec<u8> },
     Delete { file: u16 },
+    /// the file is gone and a DIRECTORY (holding a copy of the content) or a dangling symlink carries its name
+    /// `symlink`: None = directory; Some(0) dangling link, Some(1) link to a file outside the database with the same
+    /// content, Some(2) link to a file with other content
+    ReplaceByNonFile { file: u16, symlink: Option<u8> },
     DeleteTrio { trio: u16 },
     ReplaceFresh { file: u16, content: Content },
     /// exchange the contents of two file names
@@ -166,6 +170,7 @@ fn dir_tamper_strategy() -> impl Strategy<Value = DirTamper> {
         2 => (f(), p()).prop_map(|(file, newlen)| DirTamper::Truncate { file, newlen }),
         2 => (f(), prop::collection::vec(any::<u8>(), 1..4)).prop_map(|(file, extra)| DirTamper::Append { file, extra }),
         2 => f().prop_map(|file| DirTamper::Delete { file }),
+        3 => (f(), prop::option::of(0u8..3)).prop_map(|(file, symlink)| DirTamper::ReplaceByNonFile { file, symlink }),
         1 => f().prop_map(|trio| DirTamper::DeleteTrio { trio }),
         2 => (f(), small_content_strategy()).prop_map(|(file, content)| DirTamper::ReplaceFresh { file, content }),
         5 => (f(), f()).prop_map(|(a, b)| DirTamper::Swap { a, b }),
@@ -496,6 +501,35 @@ fn apply_dir_tamper(w: &mut World, db: &Db10, t: &DirTamper, labels: &mut BTreeS
             let name = pick(*file);
             w.remove(&name);
             labels.insert("dir:delete".into());
+        }
+        DirTamper::ReplaceByNonFile { file, symlink } => {
+            let name = pick(*file);
+            if let Some(bytes) = w.model.get(&name).cloned() {
+                w.remove(&name);
+                let p = w.imm_dir.join(&name);
+                if let Some(kind) = symlink {
+                    let outside = w.imm_dir.parent().expect("db dir").parent().expect("case dir").join(format!("outside-{name}"));
+                    let target = match kind {
+                        0 => std::path::PathBuf::from("/nonexistent/verif-dangling"),
+                        1 => {
+                            std::fs::write(&outside, &bytes).expect("write");
+                            outside
+                        }
+                        _ => {
+                            let mut other = bytes.clone();
+                            other.push(0x5a);
+                            std::fs::write(&outside, &other).expect("write");
+                            outside
+                        }
+                    };
+                    std::os::unix::fs::symlink(&target, &p).expect("symlink");
+                    labels.insert(format!("dir:replace-by-symlink:{}", ["dangling", "same-content", "other-content"][*kind as usize % 3]));
+                } else {
+                    std::fs::create_dir_all(&p).expect("mkdir");
+                    std::fs::write(p.join("content"), &bytes).expect("write");
+                    labels.insert("dir:replace-by-directory".into());
+                }
+            }
         }
         DirTamper::DeleteTrio { trio } => {
             let n = db.first + pick_index(*trio, db.trios.len()) as u64;
